@@ -274,7 +274,7 @@ def discharge_one(args):
 
 def discharge(obls, specs=None, ip=None, tier='quick', seed=0, timeout=None, jobs=16, portfolio=None, keep=None, budget_s=None):
     """fills o.result = {'verdict': unsat|sat|unknown, 'attempts': [...], 'model': text|None} for every obligation"""
-    timeout = timeout or (30 if tier == 'quick' else 90)
+    timeout = timeout or (60 if tier == 'quick' else 120)
     need_all = 1 if tier == 'quick' else 2
     portfolio = portfolio or DEFAULT_PORTFOLIO
     workdir = keep or tempfile.mkdtemp(prefix='pyvc_')
